@@ -12,8 +12,9 @@ import subprocess
 def run(root, lean, repo, Lock):
     import gen_fn
 
+    failed = {}
     try:
-        changed, metas = gen_fn.gen(repo, lean / "Zc" / "GenFn")
+        changed, metas = gen_fn.gen(repo, lean / "Zc" / "GenFn", failed)
     except gen_fn.Fail as f:
         line = getattr(f.node, "lineno", "?") if f.node is not None else "?"
         subprocess.run(["git", "checkout", "--", "lean/Zc/GenFn"], cwd=root, stdout=subprocess.PIPE, stderr=subprocess.STDOUT)
@@ -21,7 +22,14 @@ def run(root, lean, repo, Lock):
     import fn_selftest
 
     with Lock(lean / ".build.lock"):
-        ok, msg, n = fn_selftest.run(lean, repo)
+        ok, msg, n = fn_selftest.run(lean, repo, skip=set(failed))
+    if not ok and fn_selftest.run.bad_areas:
+        # the generated function of an area and the real code disagree: that area's tie is broken, not the others'
+        for a, m in fn_selftest.run.bad_areas.items():
+            failed[a] = "function-translator self-test: " + m
+        ok, n = True, 0
     if not ok:
         return {"ok": False, "broken": "function-translator self-test: " + msg, "changed": changed}
-    return {"ok": True, "changed": changed, "functions": sum(len(m) for m in metas.values()), "selftest_cases": n}
+    # `failed_areas`: GenFn modules with a function that left the subset (they keep their committed text).  Whether that
+    # breaks the tie of a given property depends on whether its proofs import the module: decided in `check`.
+    return {"ok": True, "changed": changed, "functions": sum(len(m) for m in metas.values()), "selftest_cases": n, "failed_areas": failed}
